@@ -381,10 +381,22 @@ def write_config(path: Path, **cfg: Any) -> Path:
     return path
 
 
+# The working directory a CLI command is started from (None: wherever the harness happens to be).
+# A check sets it around a case; nothing a command does with an absolute --dir may depend on it.
+_CLI_CWD: list[Optional[str]] = [None]
+
+
+def set_cli_cwd(path: Optional[Any] = None) -> None:
+    _CLI_CWD[0] = None if path is None else str(path)
+
+
 def _cli_entry(argv: Sequence[str]) -> int:
     import logging
 
     from zorg.app.__main__ import main
+
+    if _CLI_CWD[0] is not None:
+        os.chdir(_CLI_CWD[0])
 
     logging.disable(logging.NOTSET)  # a CLI child logs like a real invocation
 
